@@ -158,6 +158,7 @@ type App struct {
 	// free-running goroutines (real per-id mutexes); used by the -race passes only.
 	Sync      bool
 	syncActor map[ActorKind]pub.Actor
+	actors    map[ActorKind]pub.Actor
 	syncMu    *sync.Mutex // serialises the application callbacks handed out as closures
 	syncSt    *syncState
 
@@ -213,6 +214,7 @@ func (a *App) Clone() *App {
 	b.Reqs = nil
 	b.X, b.S = nil, nil
 	b.syncActor, b.syncMu, b.syncSt = nil, nil, nil
+	b.actors = nil // a clone is a different application: its actors are built over the clone
 	b.faultN = 0
 	return &b
 }
@@ -541,13 +543,26 @@ func (a *App) Actor(k ActorKind) pub.Actor {
 		}
 		return a.syncActor[k]
 	}
+	// one Actor per kind and application, reused for every request, as a real application does
+	// ("This Actor can be created once in an application and reused"): state a library change
+	// might keep inside the actor then survives between the requests of a history
+	if a.actors == nil {
+		a.actors = map[ActorKind]pub.Actor{}
+	}
+	if act, ok := a.actors[k]; ok {
+		return act
+	}
+	var act pub.Actor
 	switch k {
 	case SocialOnly:
-		return pub.NewSocialActor(Common{a}, Social{a}, DB{a}, Clk{a})
+		act = pub.NewSocialActor(Common{a}, Social{a}, DB{a}, Clk{a})
 	case FederatingOnly:
-		return pub.NewFederatingActor(Common{a}, Fed{a}, DB{a}, Clk{a})
+		act = pub.NewFederatingActor(Common{a}, Fed{a}, DB{a}, Clk{a})
+	default:
+		act = pub.NewActor(Common{a}, Social{a}, Fed{a}, DB{a}, Clk{a})
 	}
-	return pub.NewActor(Common{a}, Social{a}, Fed{a}, DB{a}, Clk{a})
+	a.actors[k] = act
+	return act
 }
 
 // Handler builds the ActivityStreams GET handler.
